@@ -62,6 +62,24 @@ Definition orelse {A} (x : option A) (y : unit -> option A) : option A :=
 
 Definition is_nil {A} (l : list A) : bool := match l with [] => true | _ => false end.
 
+(* catch-all values: every split point of s, shortest value first.  A value is
+   acceptable when it is followed by nothing (suffix value: any non-empty
+   remainder) or by a '/' (infix value: then it neither starts nor ends with '/') *)
+Definition split_ok (s : bytes) (i : nat) : bool :=
+  let v := firstn i s in
+  match skipn i s with
+  | [] => true
+  | "/" :: _ => negb (Ascii.eqb (last v "/") "/") && negb (Ascii.eqb (hd "/" s) "/")
+  | _ => false
+  end.
+
+Fixpoint try_splits {A} (k i : nat) (s : bytes) (f : bytes -> bytes -> option A) : option A :=
+  match k with
+  | O => None
+  | S k => orelse (if split_ok s i then f (firstn i s) (skipn i s) else None)
+                  (fun _ => try_splits k (S i) s f)
+  end.
+
 (* select fuel cs s host_rem vals : the selected pattern and the captured
    values (reversed).  host_rem = number of bytes of s still in the host. *)
 Fixpoint select (fuel : nat) (cs : list cand) (s : bytes) (host_rem : nat) (vals : list bytes) {struct fuel}
@@ -91,19 +109,7 @@ Fixpoint select (fuel : nat) (cs : list cand) (s : bytes) (host_rem : nat) (vals
        match adv_catch cs with
        | [] => None
        | cs' =>
-           let infix := negb (is_nil (filter (fun k => negb (is_nil (toks k))) cs')) in
-           (* every split point, shortest value first *)
-           (fix try (k : nat) (i : nat) {struct k} : option (bytes * list bytes) :=
-              match k with O => None | S k =>
-              let v := firstn i s in let rest := skipn i s in
-              let ends_ok := negb (Ascii.eqb (last v "/") "/") in
-              let ok := match rest with
-                        | [] => true                                      (* suffix value: any non-empty remainder *)
-                        | "/" :: _ => ends_ok && negb (Ascii.eqb c "/")   (* infix value *)
-                        | _ => false end in
-              orelse (if ok then select fuel cs' rest 0 (v :: vals) else None)
-                     (fun _ => try k (S i))
-              end) (List.length s) 1
+           try_splits (List.length s) 1 s (fun v rest => select fuel cs' rest 0 (v :: vals))
        end))
   end end.
 
